@@ -74,7 +74,7 @@ def ref(rng, tree, tsbox, abspath, default_base):
     return rng.choice(forms)
 
 
-def gen_task(rng, tree, scene, k):
+def gen_task(rng, tree, scene, k, agent_only=False):
     uid   = 'task.%06d' % k
     tsbox = tree.psbox + '/' + uid
     ins, outs, produce = [], [], {}
@@ -82,7 +82,7 @@ def gen_task(rng, tree, scene, k):
     used_targets = set()
     info = {'in': [], 'out': []}       # (index, source abs, target abs, action, expect_ok) for the monitor
     for _ in range(rng.choice([0, 1, 1, 2, 3, 4])):
-        action = rng.choice(ACTIONS + ['Transfer', 'Transfer'])
+        action = rng.choice(ACTIONS + ['Transfer', 'Transfer']) if not agent_only else rng.choice(['Copy', 'Copy', 'Link', 'Move'])
         missing = rng.random() < 0.08
         if action in ('Transfer', 'Tarball'):
             src_dir, dflt = rng.choice([tree.client, tree.client + '/data']), tree.client
@@ -120,7 +120,7 @@ def gen_task(rng, tree, scene, k):
         ins.append(sd); ndir += bool(dirform)
         info['in'].append((len(ins) - 1, src, tgt_abs, action, not missing and not (dirform and action == 'Link')))
     for _ in range(rng.choice([0, 1, 1, 2, 3])):
-        action = rng.choice(['Transfer', 'Transfer', 'Copy', 'Link', 'Move'])
+        action = rng.choice(['Transfer', 'Transfer', 'Copy', 'Link', 'Move']) if not agent_only else rng.choice(['Copy', 'Copy', 'Link', 'Move'])
         scene.n += 1
         oname = rng.choice(['out_%d.dat', 'res/out_%d.dat']) % scene.n
         src = os.path.join(tsbox, oname)
@@ -406,9 +406,13 @@ def run(ctx):
         try:
             tree  = stagelib.Tree(root)
             scene = Scene(rng, tree)
-            gts   = [gen_task(rng, tree, scene, k) for k in range(rng.choice([1, 1, 2, 3]))]
+            # a pilot on a remote resource: the sandboxes and the file system endpoint reach the agent as the client sees them
+            # (sftp://login.host/...); the agent side stagers work on them as local paths.  Directives the agent side acts on only.
+            remote = run_i >= len(CORPUS) and rng.random() < 0.15
+            gts   = [gen_task(rng, tree, scene, k, agent_only=remote) for k in range(rng.choice([1, 1, 2, 3]))]
             if run_i < len(CORPUS):
                 gts = CORPUS[run_i](tree, scene)
+            dist['remote_pilot_runs'] = dist.get('remote_pilot_runs', 0) + remote
             scene.write()
             ids = {'c%d' % i: i for i in range(1, scene.n + 50)}
             tasks = []
@@ -429,6 +433,9 @@ def run(ctx):
                         except ValueError: exp_impl.append({'err': 'ValueError'})
                         except Exception:  exp_impl.append({'err': 'ValueError'})
                 tasks.append(tree.task_dict(rp, g['uid'], g['descr'], pid='pilot.%04d' % g.get('pilot', 0)))
+                if remote:
+                    for key in ('endpoint_fs', 'resource_sandbox', 'session_sandbox', 'pilot_sandbox', 'task_sandbox'):
+                        u = ru.Url(tasks[-1][key]); u.schema = 'sftp'; u.host = 'login.host'; tasks[-1][key] = str(u)
             before = read_tree(tree, ids)
             # URL completion of every source and target in every context it is completed in
             for t in tasks:
@@ -467,7 +474,14 @@ def run(ctx):
                                          {'kind': 'urlctx', 'ctx': cx['agent'], 'paths': [x[w] for k2 in ('input_staging', 'output_staging')
                                                                                        for x in t['description'][k2] for w in ('source', 'target') if x[w]]})
                                 ucx = {k: ru.Url(v) for k, v in cx['agent'].items()}
-            model_tasks = [{'uid': int(t['uid'].split('.')[1]), 'boxes': boxes(tree, t),
+            def local_boxes(t):
+                b = boxes(tree, t)
+                if remote:
+                    for key in b:
+                        if key != 'client':
+                            u = ru.Url(b[key]); u.schema = 'file'; u.host = 'localhost'; b[key] = str(u)
+                return b
+            model_tasks = [{'uid': int(t['uid'].split('.')[1]), 'boxes': local_boxes(t),
                             'inputs': [{'source': sd['source'], 'target': sd['target'] or '', 'action': sd['action']} for sd in t['description']['input_staging']],
                             'outputs': [{'source': sd['source'], 'target': sd['target'] or '', 'action': sd['action']} for sd in t['description']['output_staging']],
                             'stage_on_error': bool(t['description'].get('stage_on_error')), 'target': g['outcome']}
@@ -487,7 +501,7 @@ def run(ctx):
             ctx.case({'run': run_i, 'tasks': [g['descr'] for g in gts]}, nontrivial=any(g['info']['in'] or g['info']['out'] for g in gts))
             for sig, what in monitor(tree, gts, final, rec, before, after, ids):
                 ctx.fail(sig, what, {'tasks': [{k: g.get(k, 0) for k in ('uid', 'descr', 'outcome', 'produce', 'info', 'tsbox', 'pilot')} for g in gts],
-                                     'files': {p[len(tree.root):]: i for p, i in scene.files.items()}, 'root': tree.root})
+                                     'files': {p[len(tree.root):]: i for p, i in scene.files.items()}, 'root': tree.root, 'remote': bool(remote)})
         finally:
             shutil.rmtree(root, ignore_errors=True)
     ctx.extra['distribution'] = dist
@@ -612,7 +626,22 @@ def _c_missing(tree, scene):
              'info': {'in': [(0, a, tree.psbox + '/task.000001/' + os.path.basename(a), 'Transfer', True)], 'out': []}}]
 
 
-CORPUS = [_c_tarball, _c_on_error, _c_missing]
+def _c_existing_file(tree, scene):
+    """agent side targets without a schema that name something which exists as a regular FILE: a relative target whose
+    name also exists in the pilot sandbox (the agent's working directory), and an absolute target an earlier task has
+    written - the data goes to the target named, not into a directory of that name"""
+    uid = 'task.000000'; ts = tree.psbox + '/' + uid
+    a = scene.new_file(tree.psbox)                       # pilot:///fNNNN.dat, copied into the task sandbox under its own name
+    b = scene.new_file(tree.psbox + '/shared')
+    old = scene.new_file(ts, 'in.dat')                   # staged by an earlier task: replaced by this one's copy
+    d = {'executable': '/bin/true', 'output_staging': [], 'stage_on_error': False,
+         'input_staging': [{'source': 'pilot:///' + os.path.basename(a), 'target': os.path.basename(a), 'action': 'Copy'},
+                           {'source': 'pilot:///shared/' + os.path.basename(b), 'target': old, 'action': 'Copy'}]}
+    return [{'uid': uid, 'descr': d, 'outcome': 'DONE', 'produce': {}, 'tsbox': ts,
+             'info': {'in': [(0, a, ts + '/' + os.path.basename(a), 'Copy', True), (1, b, old, 'Copy', True)], 'out': []}}]
+
+
+CORPUS = [_c_tarball, _c_on_error, _c_missing, _c_existing_file]
 
 
 def replay(ctx, data):
@@ -658,6 +687,11 @@ def replay(ctx, data):
             with open(p, 'w') as f: f.write('c%d' % n)
         ids = {'c%d' % n: n for n in range(1, 10000)}
         tasks = [tree.task_dict(rp, g['uid'], g['descr'], pid='pilot.%04d' % g.get('pilot', 0)) for g in gts]
+        if i.get('remote'):
+            import radical.utils as ru
+            for t in tasks:
+                for key in ('endpoint_fs', 'resource_sandbox', 'session_sandbox', 'pilot_sandbox', 'task_sandbox'):
+                    u = ru.Url(t[key]); u.schema = 'sftp'; u.host = 'login.host'; t[key] = str(u)
         before = read_tree(tree, ids)
         final, rec = stagelib.run_pipeline(rp, tree, tasks, {g['uid']: g['outcome'] for g in gts}, {g['uid']: {r: 'c%d' % i for r, i in g['produce'].items()} for g in gts})
         after = read_tree(tree, ids)
